@@ -347,10 +347,7 @@ func RunLife(seed int64, spec *LifeSpec, post func(lr *LifeRun)) *LifeRun {
 	}
 	w.ReleaseAllHolds()
 	lr.Events = w.Events()
-	lr.YieldCount = map[string]int{}
-	for k, v := range w.YieldCount {
-		lr.YieldCount[k] = v
-	}
+	lr.YieldCount = w.YieldCounts()
 	return lr
 }
 
@@ -417,6 +414,19 @@ func baseName(replica string) string {
 	return replica
 }
 
+// waitTrig waits for a trigger predicate; it gives up as soon as Run() returned.
+func waitTrig(w *sim.World, timeout time.Duration, pred func(v *sim.WorldView) bool) bool {
+	hit := false
+	w.WaitFor(timeout, func(v *sim.WorldView) bool {
+		if pred(v) {
+			hit = true
+			return true
+		}
+		return v.Has(sim.EvRunRet, "", "")
+	})
+	return hit
+}
+
 func runOps(lr *LifeRun, env *sim.Env, ps *probeServer, spec *LifeSpec) {
 	w := env.W
 	start := time.Now()
@@ -436,26 +446,26 @@ func runOps(lr *LifeRun, env *sim.Env, ps *probeServer, spec *LifeSpec) {
 				time.Sleep(d)
 			}
 		case "hold":
-			ok = w.WaitFor(5*time.Second, func(v *sim.WorldView) bool { return v.HoldActive(a) })
+			ok = waitTrig(w, 5*time.Second, func(v *sim.WorldView) bool { return v.HoldActive(a) })
 		case "launch":
 			if n == 0 {
 				n = 1
 			}
-			ok = w.WaitFor(10*time.Second, func(v *sim.WorldView) bool { return v.Launches(a) >= n })
+			ok = waitTrig(w, 10*time.Second, func(v *sim.WorldView) bool { return v.Launches(a) >= n })
 		case "exit":
 			if n == 0 {
 				n = 1
 			}
-			ok = w.WaitFor(10*time.Second, func(v *sim.WorldView) bool { return v.Count(sim.EvExit, a) >= n })
+			ok = waitTrig(w, 10*time.Second, func(v *sim.WorldView) bool { return v.Count(sim.EvExit, a) >= n })
 		case "instance":
 			if n == 0 {
 				n = 1
 			}
-			ok = w.WaitFor(10*time.Second, func(v *sim.WorldView) bool { return v.Instances(a) >= n })
+			ok = waitTrig(w, 10*time.Second, func(v *sim.WorldView) bool { return v.Instances(a) >= n })
 		case "state":
 			parts := strings.Split(op.When, ":")
 			st := parts[2]
-			ok = w.WaitFor(10*time.Second, func(v *sim.WorldView) bool { return v.Has(sim.EvState, a, st) })
+			ok = waitTrig(w, 10*time.Second, func(v *sim.WorldView) bool { return v.Has(sim.EvState, a, st) })
 		case "after":
 			var idx int
 			fmt.Sscanf(a, "%d", &idx)
@@ -463,8 +473,9 @@ func runOps(lr *LifeRun, env *sim.Env, ps *probeServer, spec *LifeSpec) {
 			for {
 				mu.Lock()
 				d := opRet[idx]
+				never := lr.OpErr[idx] == "trigger-never-fired"
 				mu.Unlock()
-				if d || time.Now().After(deadline) {
+				if d || time.Now().After(deadline) || never {
 					ok = d
 					break
 				}
